@@ -70,3 +70,28 @@ Theorem C18_name_spellings_agree : forall cfg parse_float regex_ok ffun afun reg
     end.
 Proof. exact spellings_agree. Qed.
 Print Assumptions C18_name_spellings_agree.
+
+
+(* omitting the leading `$`: for every path of name / index / wildcard / slice steps (each step after the first
+   possibly after `..`) the text without `$` (KeyDefs.chain_path0: the first step written bare) is accepted and
+   returns the same results as the text with it, or both fail *)
+From JP Require Import IdxParse SliceParse WildParse RecParse ChainParse ChainAddr NoDollar NoDollarAddr.
+Theorem C18_dollar_optional : forall cfg parse_float regex_ok ffun afun regex_match,
+  (forall f v w, small v -> ffun f v = Some w -> small w) ->
+  (forall f l w, Forall small l -> afun f l = Some w -> small w) ->
+  forall s r doc st, step_ok s = true -> forallb rstep_ok r = true -> small doc -> ok st ->
+  exists t1 t0,
+    parse_with cfg parse_float regex_ok jsonpath_grammar (chain_path (RPlain s :: r)) = ParseOk t1 /\
+    parse_with cfg parse_float regex_ok jsonpath_grammar (chain_path0 s r) = ParseOk t0 /\
+    match fst (eval_run ffun afun regex_match t1 doc st) with
+    | OOk rs => fst (eval_run ffun afun regex_match t0 doc st) = OOk rs
+    | OErr _ => exists e, fst (eval_run ffun afun regex_match t0 doc st) = OErr e
+    | OPanic _ => False
+    end.
+Proof. exact dollar_optional. Qed.
+Print Assumptions C18_dollar_optional.
+
+Example C18_dollar_example :
+  chain_path0 (SDot [97]) [RPlain (SWild false); RRec (SIdx [48])] = [97; 91; 42; 93; 46; 46; 91; 48; 93] /\
+  chain_path (RPlain (SDot [97]) :: [RPlain (SWild false); RRec (SIdx [48])]) = [36; 46; 97; 91; 42; 93; 46; 46; 91; 48; 93].
+Proof. split; vm_compute; reflexivity. Qed.
